@@ -56,6 +56,8 @@ func runC04(c *core.Ctx) *core.Outcome {
 	cfg.FinishAlways = true
 	cfg.SetSession = t.Chance(1, 2)
 	cfg.First = t.Chance(1, 4) // a pre-VM function is no move: the position must not notice it
+	cfg.Debug = t.Chance(1, 4) // an attached debugger looks, it does not touch
+	longMenus := t.Chance(1, 3)
 	if cfg.OutputSize > 0 && cfg.OutputSize < 40 {
 		cfg.OutputSize = 60 // multi-page nodes, not refused renders, are the point here
 	}
@@ -71,7 +73,9 @@ func runC04(c *core.Ctx) *core.Outcome {
 		cfg.OutputSize = 0
 		o.Probes["deep_run"]++
 	} else {
-		a = app.Generate(t, c04Profile(cfg.FlagCount, t.Chance(1, 2)))
+		prof := c04Profile(cfg.FlagCount, t.Chance(1, 2))
+		prof.LongMenus = longMenus
+		a = app.Generate(t, prof)
 	}
 	if err := a.Validate(); err != nil {
 		panic("generator produced ill-formed app: " + err.Error())
